@@ -226,7 +226,9 @@ func HasNoOutputs[O generic.ResourceWithRD, I generic.ResourceWithRD](
 				zeroOutputNamespace = zeroOutput.ResourceDefinition().DefaultNamespace
 			)
 
-			list, err := r.List(
+			// the decision to release the finalizer should not be based on the cache: it might not have caught up with
+			// an output created just before the input was torn down
+			list, err := r.ListUncached(
 				ctx,
 				resource.NewMetadata(zeroOutputNamespace, zeroOutputType, "", resource.VersionUndefined),
 				listOptions(input),
@@ -294,15 +296,18 @@ func RemoveOutputs[O generic.ResourceWithRD, I generic.ResourceWithRD](
 				zeroOutputNamespace = zeroOutput.ResourceDefinition().DefaultNamespace
 			)
 
-			list, err := safe.ReaderList[O](
+			// the decision to release the finalizer should not be based on the cache: it might not have caught up with
+			// an output created just before the input was torn down
+			rawList, err := r.ListUncached(
 				ctx,
-				r,
 				resource.NewMetadata(zeroOutputNamespace, zeroOutputType, "", resource.VersionUndefined),
 				listOptions(input),
 			)
 			if err != nil {
 				return fmt.Errorf("error listing resources on input %q: %w", input.Metadata().ID(), err)
 			}
+
+			list := safe.NewList[O](rawList)
 
 			var multiErr error
 
